@@ -55,7 +55,7 @@ def main():
     r = run(sid)
     out.append(r)
     print(f"{r['id']:12s} {r['property']} {r['result']:14s} {r.get('wall_s', '')}s {(r.get('lines') or r.get('tail') or [r.get('why', '')])[:1]}", flush=True)
-  rep = os.path.join(VERIF, 'seeded_report.json')
+  rep = os.environ.get('SEEDED_REPORT') or os.path.join(VERIF, 'seeded_report.json')
   old = []
   if os.path.exists(rep):
     old = [o for o in json.load(open(rep)) if o['id'] not in {r['id'] for r in out}]
